@@ -167,6 +167,13 @@ class Adapter:
             got = (a == b)
             if (a != b) == got:
                 return "== and != agree"
+            # one of the two may have been asked for its start time before it is first hashed
+            # (directly, or through as_dict()/process_iter(attrs=...)): equal objects hash alike all the same
+            if e["a"] not in self.hashes and (e["a"] + e["b"]) % 2:
+                try:
+                    a.create_time()
+                except ps.Error:
+                    pass
             ha, hb = hash(a), hash(b)
             for k, h in ((e["a"], ha), (e["b"], hb)):
                 if self.hashes.setdefault(k, h) != h:
